@@ -918,3 +918,100 @@ Proof.
     rewrite Hw in Hn. assert (key_eqb (i, j, k, l) (i, j, k, l) = true) by (now apply key_eqb_eq). congruence.
 Qed.
 End FourStore.
+
+(* ------------------------------------------------------------------ *)
+(* four indices: reordering the shells                                  *)
+(* ------------------------------------------------------------------ *)
+Section FourPerm.
+Context {A : Type} (azero : A).
+Notation R4 := (list (list (list (list A)))).
+Notation get4' := (get4 azero).
+
+Lemma four_concat_ext n (cell cell' : nat -> nat -> nat -> nat -> R4) :
+  (forall i j k l, i < n -> j < n -> k < n -> l < n -> cell i j k l = cell' i j k l) ->
+  four_concat n cell = four_concat n cell'.
+Proof.
+  intros H. unfold four_concat. f_equal. apply mk_ext; intros i Hi. f_equal.
+  apply mk_ext; intros j Hj. f_equal. apply mk_ext; intros k Hk. f_equal.
+  apply mk_ext; intros l Hl. now apply H.
+Qed.
+
+(* the nested concatenation of a selection of the shells, entry by entry: new basis index x
+   holds what the original array holds at index nth x (iperm r p) *)
+Theorem four_concat_perm n r (cell cell' : nat -> nat -> nat -> nat -> R4) p :
+  shape4 n r cell -> Forall (fun k => k < n) p ->
+  (forall a b c d, a < length p -> b < length p -> c < length p -> d < length p ->
+     cell' a b c d = cell (nth a p 0) (nth b p 0) (nth c p 0) (nth d p 0)) ->
+  forall x1 x2 x3 x4, x1 < length (iperm r p) -> x2 < length (iperm r p) ->
+    x3 < length (iperm r p) -> x4 < length (iperm r p) ->
+  get4' (four_concat (length p) cell') x1 x2 x3 x4
+  = get4' (four_concat n cell) (nth x1 (iperm r p) 0) (nth x2 (iperm r p) 0)
+                               (nth x3 (iperm r p) 0) (nth x4 (iperm r p) 0).
+Proof.
+  intros HS Hp Hc x1 x2 x3 x4 H1 H2 H3 H4.
+  set (r' := fun k' => r (nth k' p 0)).
+  rewrite <- (off_iperm_length r p) in H1, H2, H3, H4.
+  destruct (off_decompose r' _ x1 H1) as (k1 & a1 & Hk1 & Ha1 & ->).
+  destruct (off_decompose r' _ x2 H2) as (k2 & a2 & Hk2 & Ha2 & ->).
+  destruct (off_decompose r' _ x3 H3) as (k3 & a3 & Hk3 & Ha3 & ->).
+  destruct (off_decompose r' _ x4 H4) as (k4 & a4 & Hk4 & Ha4 & ->).
+  unfold r' in *. rewrite !nth_iperm by assumption.
+  rewrite (four_concat_ext (length p) cell'
+             (fun a b c d => cell (nth a p 0) (nth b p 0) (nth c p 0) (nth d p 0))) by exact Hc.
+  rewrite (four_concat_entry azero (length p) (fun k' => r (nth k' p 0))) by
+    (try assumption; intros i j k l Hi Hj Hk Hl; apply HS; eapply sel_lt; eauto).
+  symmetry. apply (four_concat_entry azero n r cell HS); try assumption; eapply sel_lt; eauto.
+Qed.
+
+Lemma sym8_inherit n (Bf : nat -> nat -> nat -> nat -> R4) p : Forall (fun k => k < n) p ->
+  sym8 azero n Bf -> sym8 azero (length p) (fun a b c d => Bf (nth a p 0) (nth b p 0) (nth c p 0) (nth d p 0)).
+Proof. intros Hp H i j k l Hi Hj Hk Hl. apply H; eapply sel_lt; eauto. Qed.
+End FourPerm.
+
+Section FourSymm.
+Context {F : Type} (K : Fops F).
+Context {A : Type} (azero : A) (aadd : A -> A -> A) (ascale : F -> A -> A).
+Notation R4 := (list (list (list (list A)))).
+
+(* processed block of the shells at positions i j k l *)
+Definition B4f (mode : nat) (ss : list (@sh F)) (bf : nat -> nat -> nat -> nat -> list (list (list (list R4))))
+           (i j k l : nat) : R4 :=
+  let d := mkSh false [] [] in
+  let ty s := match mode with 0 => false | 1 => true | _ => sh_sph s end in
+  let s1 := nth i ss d in let s2 := nth j ss d in let s3 := nth k ss d in let s4 := nth l ss d in
+  block4 azero aadd ascale (ty s1) (ty s2) (ty s3) (ty s4) s1 s2 s3 s4 (bf i j k l).
+
+(* given the eight-fold symmetry of the processed blocks, the store-and-concatenate assembly
+   of base_four_symm.py is the plain concatenation of all n^4 blocks *)
+Theorem four_symm_is_concat mode ss bf : sym8 azero (length ss) (B4f mode ss bf) ->
+  four_symm azero aadd ascale mode ss bf = four_concat (length ss) (B4f mode ss bf).
+Proof.
+  intros H8. unfold four_symm. cbv zeta. apply four_concat_ext. intros i j k l Hi Hj Hk Hl.
+  exact (lookup_all_writes azero (length ss) (B4f mode ss bf) H8 i j k l Hi Hj Hk Hl).
+Qed.
+
+(* FOUR-INDEX PERMUTATION THEOREM (Assembly14.four_symm), entry by entry over the whole array *)
+Theorem four_symm_perm mode ss bf r p :
+  shape4 (length ss) r (B4f mode ss bf) -> sym8 azero (length ss) (B4f mode ss bf) ->
+  Forall (fun k => k < length ss) p ->
+  forall x1 x2 x3 x4, x1 < length (iperm r p) -> x2 < length (iperm r p) ->
+    x3 < length (iperm r p) -> x4 < length (iperm r p) ->
+  get4 azero (four_symm azero aadd ascale mode (sel (mkSh false [] []) p ss)
+                (fun a b c d => bf (nth a p 0) (nth b p 0) (nth c p 0) (nth d p 0))) x1 x2 x3 x4
+  = get4 azero (four_symm azero aadd ascale mode ss bf)
+      (nth x1 (iperm r p) 0) (nth x2 (iperm r p) 0) (nth x3 (iperm r p) 0) (nth x4 (iperm r p) 0).
+Proof.
+  intros HS H8 Hp x1 x2 x3 x4 H1 H2 H3 H4.
+  assert (EB : forall a b c d, a < length p -> b < length p -> c < length p -> d < length p ->
+     B4f mode (sel (mkSh false [] []) p ss) (fun a b c d => bf (nth a p 0) (nth b p 0) (nth c p 0) (nth d p 0)) a b c d
+     = B4f mode ss bf (nth a p 0) (nth b p 0) (nth c p 0) (nth d p 0)).
+  { intros a b c d Ha Hb Hc Hd. unfold B4f, sel. cbv zeta.
+    now rewrite !(nth_map_lt (fun k => nth k ss (mkSh false [] [])) p _ 0) by assumption. }
+  rewrite (four_symm_is_concat mode ss bf H8).
+  rewrite four_symm_is_concat.
+  - unfold sel at 1. rewrite map_length. now apply (four_concat_perm azero (length ss) r).
+  - unfold sel at 1. rewrite map_length. intros i j k l Hi Hj Hk Hl.
+    rewrite !EB by assumption.
+    exact (sym8_inherit azero (length ss) (B4f mode ss bf) p Hp H8 i j k l Hi Hj Hk Hl).
+Qed.
+End FourSymm.
